@@ -283,7 +283,10 @@ def cargo_build(ctx, release=False, bin=None):
         # dependency and keep the build output apart from the main cache
         target = os.path.join(CACHE, "target_alt")
         ps = [os.path.join(REPO, d) for d in ("dds", "dds_gen", "dds_derive") if os.path.isdir(os.path.join(REPO, d))]
-        cmd += ["--config", "paths=[%s]" % ",".join('"%s"' % x for x in ps), "--target-dir", target]
+        cmd += ["--config", "paths=[%s]" % ",".join('"%s"' % x for x in ps)]
+    # always say where the output goes: harness/.cargo/config.toml names /verif/.cache/target, which is
+    # wrong when this tree is checked out somewhere else (vp run snapshots)
+    cmd += ["--target-dir", target]
     with Lock("cargo" if target.endswith("target") else "cargo_alt"):
         rc, out = sh(cmd, cwd=HARNESS, timeout=3000, env=env)
     if rc != 0:
